@@ -1,21 +1,23 @@
 ID = 'C28'
 ENTRY = dict(
     props_v='Props/C28.v', harness='c28',
-    level_text=('Proof over ALL interleavings (induction over arbitrary command lists by any number of owners, every eviction-victim choice) '
+    level_text=('Proof over ALL interleavings (induction over arbitrary command lists by any number of owners, every eviction-victim choice, every shard capacity) '
                 'of an executable model of both lock services (Locks.v). FULL: C28_one_holder (at most one unexpired holder per key, both services), '
-                'C28_release_inmem (in-memory Unlock by a non-holder never frees the holder, any state and capacity), '
-                'C28_mutex_inmem_fits (in-memory, shard capacity >= number of distinct lock keys: every owner that was told it holds k and whose recorded TTL has not elapsed IS the holder, hence never two believers). '
-                'REFUTED with vm_compute witnesses reproduced on the real code: C28_mutex_inmem_refuted + C28_lock_self_eviction_refuted (a full shard evicts an unexpired lock), '
+                'C28_mutex_inmem (in-memory, any capacity: every owner that was told it holds k and whose recorded TTL has not elapsed IS the holder, hence never two believers), '
+                'C28_lock_never_evicts_held and C28_lock_true_holds_all (a Lock on a full shard never removes an unexpired lock of anybody and holds every key it answers true for), '
+                'C28_release_inmem (in-memory Unlock by a non-holder never frees the holder, any state and capacity). '
+                'The in-memory theorems describe the code after the repair "never evict a held lock" (loadOrStore skips unexpired lock entries when it picks an eviction victim; the translator checks that guard is present); before it the mutex statement was refuted by filling a shard. '
+                'REFUTED with vm_compute witnesses reproduced on the real code: '
                 'C28_release_redis_refuted + C28_release_redis_double_unlock_refuted + C28_mutex_redis_refuted (Redis Unlock deletes by local flag), C28_mutex_redis_ttl_refuted (Redis IsLockedTTL rewrites a foreign TTL before comparing). '
-                'PARTIAL: C28_mutex_inmem_partial (any capacity, runs that evict no unexpired lock entry), C28_mutex_redis_partial and C28_release_redis_partial (runs in which no Unlock/IsLockedTTL touches a live entry of another owner), C28_mutex_redis_polite_partial (the same from a client-side discipline: Unlock/IsLockedTTL only for keys the caller still validly believes to hold, i.e. no unlock after own expiry and no second unlock). '
-                'Tie (K2): scripted interleavings of 2-4 owners over overlapping keys run against cache.NewL2InMemoryCache (shard capacity 1-8 and default, keys forced into chosen shards) and against the Redis adapter + go-redis over an in-process RESP2 stand-in; after EVERY command the answer, the reported owner, the whole lock table with expiries and (Redis) every IsLockOwner flag must equal one outcome of the Coq model; plus an omniscient holder oracle on the implementation and a goroutine stress run per service.'),
+                'PARTIAL: C28_mutex_redis_partial and C28_release_redis_partial (runs in which no Unlock/IsLockedTTL touches a live entry of another owner), C28_mutex_redis_polite_partial (the same from a client-side discipline: Unlock/IsLockedTTL only for keys the caller still validly believes to hold, i.e. no unlock after own expiry and no second unlock). '
+                'Tie (K2): scripted interleavings of 2-4 owners over overlapping keys run against cache.NewL2InMemoryCache (shard capacity 1-8 and default, keys forced into chosen shards, full and overfull shards) and against the Redis adapter + go-redis over an in-process RESP2 stand-in; after EVERY command the answer, the reported owner, the whole lock table with expiries and (Redis) every IsLockOwner flag must equal one outcome of the Coq model; plus an omniscient holder oracle on the implementation and a goroutine stress run per service.'),
     level_note=('Trusted: Coq kernel; the model Locks.v read off the Go code (kept honest by the per-command differential check); ONE SERVICE COMMAND IS ATOMIC (hypothesis of every theorem; '
                 'real concurrency is only sampled by the stress run); logical time (the in-memory cache reads time.Now(): the harness realises ticks by shifting stored expiries through an add-only hook); '
                 'for the Redis half the RESP2 stand-in harness/respsrv stands for a Redis server.'),
     technique='Coq proof (invariant "believer => holder" by induction over command lists, list-monad nondeterminism for eviction) + per-command differential check of both lock services + holder oracle',
     trusted_base=[
         'hypothesis: one lock-service command (Lock, DualLock, IsLocked, IsLockedTTL, IsLockedByOthers, Unlock) executes atomically; finer interleavings of the in-memory per-key steps and of the Redis round trips are only exercised by the goroutine stress run',
-        'modelled, not verified: cache/l2inmemorycache.go + l2inmemorycache.sharded_map.go (lock table only) and adapters/redis/locker.go as Gallina functions in Locks.v; constants shardCount/sampleSize regenerated from the Go AST (Gen/LocksConsts.v)',
+        'modelled, not verified: cache/l2inmemorycache.go + l2inmemorycache.sharded_map.go (lock table only) and adapters/redis/locker.go as Gallina functions in Locks.v; constants shardCount/sampleSize and the presence of the isHeldLock guard in loadOrStore regenerated from the Go AST (Gen/LocksConsts.v)',
         'RESP2 stand-in /verif/harness/respsrv replaces a Redis server (SET NX/PX/EX, GET, GETEX, DEL, EXISTS; expiry iff now > deadline; one command atomic): part of the trusted base of the Redis half',
         'logical clock: /repo/cache/verif_c28_locks.go VerifShiftLockExpirations moves stored expiries instead of the wall clock (sound because the lock code only compares time.Now() with stored expiries); RESP server clock is set explicitly',
         'believer = owner whose last Lock/DualLock/IsLocked/IsLockedTTL answer covering the key was true, not unlocked since, within the expiry the service recorded at that answer (a re-entrant Lock does not extend the TTL in either service and is not counted as a promise of now+duration)',
